@@ -32,11 +32,13 @@ PROP = dict(
     timeout=1800,
     rule="case = a real UDP ASSOCIATE over a real control connection (TCP from 127.0.0.1/2/3, or net.Pipe = no TCP peer address) declaring nothing / 0.0.0.0 / :: / a domain / "
          "a sender's address (exact, other port, IPv4-mapped), then datagrams (valid or invalid SOCKS5 UDP header) from UDP sockets bound to 127.0.0.1, 127.0.0.2, 127.0.0.3 and a second socket on 127.0.0.1 "
-         "to the real relay socket read by the real ReadLoop, with WriteToClient probes in between; every ordered pair of first senders x control kind x declared/undeclared, plus random histories of 1-4 (8%: 20-50) datagrams; "
+         "to the real relay socket read by the real ReadLoop, with WriteToClient probes in between; every ordered pair of first senders x control kind x declared/undeclared, plus random histories of 1-4 (8%: 20-50) datagrams; stalled-mesh cases: the relay back-end is held (RelayUDPDatagram blocks) while 3-8 (10%: 70-90) datagrams from the owner and from foreign hosts arrive, then released — "
+         "every relayed (destination, payload) must be exactly one the owner sent, each once, in order; declared addresses include port 0; "
          "non-trivial = a datagram was relayed or a reply delivered",
     nontrivial=lambda op, out: out == "relayed" or out.startswith("to "),
     trusted_base=[
-        "harness synchronisation: a datagram counts as processed when a later datagram from the same socket has arrived elsewhere, the relay socket's queue is empty (FIONREAD) and ReadLoop is parked in ReadFromUDP (goroutine dump)",
+        "harness synchronisation: a datagram counts as processed when a later datagram from the same socket has arrived elsewhere, the relay socket's queue is empty (FIONREAD) and every goroutine running internal/socks5 code is parked (runtime.GoroutineProfile: innermost frame runtime.gopark); every wait has a 5 s deadline and then answers `timeout ...` (a disagreement)",
+        "the content identity of relayed datagrams (destination + payload = what the owner sent, once, in order) is checked by the differential run and the spec, not by a Lean theorem (the model abstracts datagram contents)",
         "MM/Model/C22.lean models net.IP.Equal through the IPv4-mapped normalisation of MM/Model/C23.lean",
         "two source facts (wsConn.RemoteAddr is nil; handleUDPAssociate's declared-address rule) checked by regular expression on every run",
     ],
